@@ -949,7 +949,7 @@ func Fixed() []*Spec {
 		add(sp)
 	}
 	// a statement language with 71 states and 32 symbols: the packed vector passes 256 slots
-	add(&Spec{Name: "lang71", Tags: []string{"conflict-resolved", "big"},
+	add(&Spec{Name: "lang71", Tags: []string{"conflict-resolved", "big", "cells-only"},
 		Toks: []Tok{lit('i'), lit('n'), lit('f'), lit('w'), lit('e'), lit('r'), lit('v'), lit('p'),
 			{Char: '+', Decl: "prec"}, {Char: '-', Decl: "prec"}, {Char: '*', Decl: "prec"}, {Char: '/', Decl: "prec"}, lit('('), lit(')'), lit('{'), lit('}'), lit(';'),
 			{Char: '=', Decl: "prec"}, {Char: '<', Decl: "prec"}, lit(','), {Char: '!', Decl: "prec"}, {Char: '&', Decl: "prec"}, {Char: '^', Decl: "prec"}, lit('['), lit(']')},
